@@ -264,6 +264,14 @@ FIXED = [
     ("string", "value.endsWith('a ')"), ("string", "value   ==   'a'"), ("int", "value>1&&value<10"), ("int", "value\t>\t1"), ("string", "value == 'A'"),
     ("string", "value == 'a' + ' ' + ' ' + 'b'"), ("string", "value.matches('a  b')"), ("string", "value in ['a  b', ' a', 'a ']"), ("string", "value == \"a'b\""),
     ("[]string", "value.exists(x, x == 'a  b')"), ("string", "  value != 'x  y'  "),
+    # nested comprehensions; the generic membership loop's variable (`item`) next to user variables of the same name at an outer level
+    ("[]string", "value.all(item, item != '' && this.Tags.exists(g, item in this.Tags && g != ''))"),
+    ("[]string", "value.all(item, item != 'zz' && this.Tags.exists(g, g == item || item in value))"),
+    ("[]string", "value.exists(item, this.Tags.all(_item, _item != item) && item in this.Tags)"),
+    ("[]int", "value.all(item, item > 0 && this.Nums.exists(n, n == item && item in this.Nums))"),
+    ("[]string", "value.all(a, this.Tags.exists(b, a == b))"), ("[]string", "value.exists(a, this.Tags.all(b, a != b))"),
+    ("[]int", "value.all(x, this.Nums.exists(y, y > x)) || size(value) == 0"), ("[]string", "size(value.filter(a, this.Tags.exists(b, b == a))) >= 1"),
+    ("[]string", "value.all(x, value.exists(y, x == y))"), ("[]string", "value.exists_one(x, this.Tags.exists(x2, x2 == x))"),
     # patterns only known at run time (D35, fixed): guarded regexp.Compile
     ("string", "value.matches(this.S)"), ("string", "matches(this.S, value)"), ("string", "value.matches(this.S + '$')"), ("[]string", "value.all(x, x.matches(this.S))"),
     ("string", "this.S.matches(value)"), ("string", "value.matches('^a' + 'b')"),
